@@ -415,6 +415,12 @@ pub fn random_op() -> BoxedStrategy<BOp> {
     1 => gen::short_text().prop_map(|t| BOp::Set(ClaimSpec::Aud(t.render()))),
     1 => gen::short_text().prop_map(|t| BOp::Set(ClaimSpec::Jti(t.render()))),
     3 => ("[a-d]", gen::json_leaf()).prop_map(|(k, v)| BOp::Set(ClaimSpec::Custom(k, v))),
+    // custom claims whose names contain or look like exp / iat / nbf: claims of their own - the defaults stay what they are
+    3 => (any::<u16>(), gen::json_leaf()).prop_map(|(i, v)| {
+      const NAMES: [&str; 24] = ["expires_in", "expiry", "experiment", "exp_", "_exp", "deviation", "initiator", "association", "iat2", "nbf_", "unbfoo", "Exp", "NBF", "e\u{200b}xp", "exp\u{fe0f}", "\u{2060}iat",
+        "nbf\u{200d}", "\u{ff45}\u{ff58}\u{ff50}", "\u{ff49}\u{ff41}\u{ff54}", "i\u{ad}at", "ex", "ia", "expnbfiat", "exp iat"];
+      BOp::Set(ClaimSpec::Custom(NAMES[pick(i, NAMES.len())].to_string(), v))
+    }),
     // documents with hundreds of containers (tables, key sets, records with empty members)
     1 => ("[a-d]", gen::json_doc_value()).prop_map(|(k, v)| BOp::Set(ClaimSpec::Custom(k, v))),
     // a payload beyond 64 KiB
